@@ -9,3 +9,7 @@ def run(R):
         "mechanically discharged, discharged by a tabled reason (optionally with a re-proved guard), a known finding, or reported")
     R.assume("termination, stack depth and memory exhaustion are not decided")
     R.assume("dependencies do not panic on arguments that satisfy their documented preconditions")
+
+
+def run_thorough(R):
+    rules_sites.run_thorough_release(R, "C09.sites", "EXEC")
